@@ -238,8 +238,15 @@ static void GC_Rem_Ptr(struct GC* gc, var ptr) {
   
   if (gc->nslots is 0) { return; }
   
+  /* An object the running sweep has set aside: finalise it now if the
+  ** sweep has not got to it yet. Finalised entries are tagged, not cleared */
   for (size_t i = 0; i < gc->freenum; i++) {
-    if (gc->freelist[i] is ptr) { gc->freelist[i] = NULL; }
+    if (gc->freelist[i] is ptr) {
+      gc->freelist[i] = (var)((uintptr_t)ptr | 1);
+      dealloc(destruct(ptr));
+      return;
+    }
+    if (gc->freelist[i] is (var)((uintptr_t)ptr | 1)) { return; }
   }
   
   uint64_t i = GC_Hash(ptr) % gc->nslots;
@@ -494,8 +501,10 @@ void GC_Sweep(struct GC* gc) {
   gc->mitems = gc->nitems + gc->nitems / 2 + 1;
   
   for (size_t i = 0; i < gc->freenum; i++) {
-    if (gc->freelist[i]) {
-      dealloc(destruct(gc->freelist[i]));
+    var item = gc->freelist[i];
+    if (not ((uintptr_t)item & 1)) {
+      gc->freelist[i] = (var)((uintptr_t)item | 1);
+      dealloc(destruct(item));
     }
   }
   
